@@ -20,10 +20,20 @@ def zero : GQ := ⟨0, 0⟩
 def one : GQ := ⟨1, 0⟩
 def I : GQ := ⟨0, 1⟩
 def ofRat (r : Rat) : GQ := ⟨r, 0⟩
-def add (a b : GQ) : GQ := ⟨a.re + b.re, a.im + b.im⟩
+def add (a b : GQ) : GQ :=
+  if a.re.num == 0 && a.im.num == 0 then b
+  else if b.re.num == 0 && b.im.num == 0 then a
+  else ⟨a.re + b.re, a.im + b.im⟩
 def neg (a : GQ) : GQ := ⟨-a.re, -a.im⟩
 def sub (a b : GQ) : GQ := ⟨a.re - b.re, a.im - b.im⟩
-def mul (a b : GQ) : GQ := ⟨a.re * b.re - a.im * b.im, a.re * b.im + a.im * b.re⟩
+/-- `re = 0 ∧ im = 0`, tested on numerators only (cheap). -/
+@[inline] def isZero (a : GQ) : Bool := a.re.num == 0 && a.im.num == 0
+
+/-- Product; the zero and real shortcuts only save work (same value). -/
+def mul (a b : GQ) : GQ :=
+  if a.isZero || b.isZero then ⟨0, 0⟩
+  else if a.im.num == 0 && b.im.num == 0 then ⟨a.re * b.re, 0⟩
+  else ⟨a.re * b.re - a.im * b.im, a.re * b.im + a.im * b.re⟩
 def conj (a : GQ) : GQ := ⟨a.re, -a.im⟩
 def smul (r : Rat) (a : GQ) : GQ := ⟨r * a.re, r * a.im⟩
 
@@ -36,7 +46,6 @@ instance : Mul GQ := ⟨mul⟩
 instance : OfNat GQ 0 := ⟨zero⟩
 instance : OfNat GQ 1 := ⟨one⟩
 
-def isZero (a : GQ) : Bool := a.re == 0 && a.im == 0
 
 def ratStr (r : Rat) : String :=
   if r.den == 1 then toString r.num else s!"{r.num}/{r.den}"
